@@ -95,24 +95,34 @@ structure FwObs where
   up : Bytes        -- received by the peer stream until its end-of-stream
   down : Bytes      -- received by the application until its end-of-stream
   done : Bool       -- both saw the end-of-stream (and the forwarder returned)
+  cnt : Option (Nat × Nat)   -- BytesSentCounter / BytesReceivedCounter when the config has them
+  closes : Option Nat        -- calls of LocalConnCloser.Close when the config has one
 deriving DecidableEq, Repr
 
 /-- The forwarder seen through the stream model: upload = the application's bytes handed to
 `FrameStream.Write` in pieces `ups` (as `io.Copy` reads them), then `CloseWrite` (half-close); the peer
 reads to end-of-stream, then writes `down` and `Close`s; the other direction is a second stream run.
 Reads use frame-sized buffers, one more than there can be frames (`frameBound`). -/
-def runForward (me : Bytes) (ups : List Bytes) (down : Bytes) : FwObs :=
+def runForward (me : Bytes) (ups : List Bytes) (down : Bytes) (ct cl : Bool) : FwObs :=
   let uev := ups.map Ev.write ++ [.closeWrite]
   let dev := [Ev.write down, .close]
   let u := runStream none me uev (fun b => [b]) .eof false
     (List.replicate (frameBound uev + 1) crossnode.MaxFrameSize)
   let d := runStream none me dev (fun b => [b]) .eof false
     (List.replicate (frameBound dev + 1) crossnode.MaxFrameSize)
-  ⟨delivered u.reads, delivered d.reads, u.reads.contains .eof && d.reads.contains .eof⟩
+  ⟨delivered u.reads, delivered d.reads, u.reads.contains .eof && d.reads.contains .eof,
+   -- the counting wrapper sees what is read from / written to the local connection
+   if ct then some ((delivered u.reads).length, (delivered d.reads).length) else none,
+   -- closeAll runs under a sync.Once (not modelled: the model has no second closer)
+   if cl then some 1 else none⟩
 
 /-- **Forwarding on an observation**: everything the application sent before its half-close reached the
-peer, the peer's answer reached the application, both followed by end-of-stream. -/
-def holdsFw (up down : Bytes) (o : FwObs) : Bool := o.up == up && o.down == down && o.done
+peer, the peer's answer reached the application, both followed by end-of-stream; the traffic counters
+(if any) show exactly those byte counts and the local connection's closer (if any) ran exactly once. -/
+def holdsFw (up down : Bytes) (ct cl : Bool) (o : FwObs) : Bool :=
+  o.up == up && o.down == down && o.done &&
+  o.cnt == (if ct then some (up.length, down.length) else none) &&
+  o.closes == (if cl then some 1 else none)
 
 /-! ### Decoder -/
 
